@@ -94,6 +94,7 @@ class Registry:
         self.max_inline_depth = 12
         self.automat = None       # automat support (tables), set by pyvc.automat
         self.opaque_call_ok = set()
+        self.ext_consts = {"nacl.secret.SecretBox.NONCE_SIZE": 24, "nacl.secret.SecretBox.KEY_SIZE": 32}
 
     def note(self, s):
         if s not in self.assumptions:
@@ -690,6 +691,8 @@ class Interp:
         if enter:
             self.ctx.cover(f"{fn}#loop{ordn}.body")
             self.ctx.event("loop-body-start", ordn)
+            iter_start = self.snapshot_frame(fr)
+            fr.iter_start = iter_start
             try:
                 try:
                     self.exec_block(s.body, fr)
@@ -705,6 +708,9 @@ class Interp:
                     fr.locals["_done"] = VSet(z3.Store(d.z, to_z3(cur, it.elem), True), it.elem)
             for upd_name, upd in spec.get("ghost_update", {}).items():
                 fr.locals[upd_name] = self.eval_spec(upd, fr, entry=entry)
+            for i, be in enumerate(spec.get("body_ensures", [])):
+                self.ctx.prove(self.truth(self.eval_spec(be, fr, entry=entry, extra={"__iter_start": iter_start})),
+                               f"{fn}#loop{ordn}.body{i}", {"kind": "loop-body", "src": be})
             for i, inv in enumerate(spec["invariant"]):
                 self.ctx.prove(self.truth(self.eval_spec(inv, fr, entry=entry)), f"{fn}#loop{ordn}.inv{i}.preserved",
                                {"kind": "loop-preserve", "src": inv})
@@ -910,7 +916,10 @@ class Interp:
                 if r is None:
                     raise OutOfSubset(f"{o.name}.{attr}")
                 return r
-            return VExt(o.name + "." + attr)
+            full = o.name + "." + attr
+            if full in self.reg.ext_consts:
+                return self.const(self.reg.ext_consts[full])
+            return VExt(full)
         if isinstance(o, VClass):
             cd = o.cdef
             if cd is not None:
@@ -1011,6 +1020,16 @@ class Interp:
                 parts.append(z3.StringVal(p.value))
             else:
                 v = self.force(self.eval(p.value, fr))
+                spec_s = None
+                if p.format_spec is not None and all(isinstance(x, ast.Constant) for x in p.format_spec.values):
+                    spec_s = "".join(x.value for x in p.format_spec.values)
+                import re as _re
+                if isinstance(v, VInt) and spec_s and _re.fullmatch(r"0(\d+)x", spec_s) and len(e.values) == 1:
+                    from .models import uf
+                    n = int(spec_s[1:-1])
+                    r = VStr(uf("hexfmt", IntS, IntS, StringS)(v.z, z3.IntVal(n)), "str")
+                    r.hex_fmt = (v.z, n)
+                    return r
                 if isinstance(v, VStr) and v.kind == "str" and p.conversion == -1 and p.format_spec is None:
                     parts.append(v.z)
                 elif isinstance(v, VInt) and p.conversion == -1 and p.format_spec is None:
@@ -1629,6 +1648,19 @@ class Interp:
             f2 = Frame(ent.fdef, ent.module, ent.selfobj, None)
             f2.locals = dict(ent.locals)
             f2.spec = {"old": fr.spec.get("old"), "entry": None}
+            return self.eval(e.args[0], f2)
+        if src == "at_iter":
+            ent = fr.lookup("__iter_start")
+            if ent is None:
+                f0 = fr
+                while f0 is not None and not hasattr(f0, "iter_start"):
+                    f0 = f0.parent
+                ent = f0.iter_start if f0 is not None else None
+            if ent is None:
+                raise OutOfSubset("at_iter() outside a loop body clause")
+            f2 = Frame(ent.fdef, ent.module, ent.selfobj, None)
+            f2.locals = dict(ent.locals)
+            f2.spec = {"old": fr.spec.get("old") if fr.spec else None, "entry": None}
             return self.eval(e.args[0], f2)
         if src == "implies":
             a = self.truth(self.eval(e.args[0], fr))
